@@ -184,6 +184,10 @@ func e2eWorkerMain() {
 				fmt.Fprintf(out, "{\"sync\":%q}\n", waitSync(syncDone))
 			}
 			out.Flush()
+		case "alias": // alias <index> <alias> (C15 suites, c15_bulk.go): vtable.AddAliases
+			bkWorkerAlias(f[1], f[2])
+		case "block": // block <index> (C15 suites, c15_bulk.go): from now on every store call for this index fails
+			bkWorkerBlock(f[1])
 		case "bulk":
 			// bulk <hex body>: the real Elasticsearch bulk entry point; prints {"items":[status…],"errors":bool}
 			hx := ""
